@@ -20,11 +20,12 @@ import (
 	"github.com/saucelabs/forwarder"
 	"github.com/saucelabs/forwarder/header"
 	"github.com/saucelabs/forwarder/verifharness/core"
+	"github.com/saucelabs/forwarder/verifharness/srcgen"
 	"github.com/saucelabs/forwarder/verifharness/reqmodel"
 	"github.com/saucelabs/forwarder/verifharness/rig"
 )
 
-func init() { core.Register("C02", core.Scenario{Run: Run, Replay: Replay}) }
+func init() { core.Register("C02", core.Scenario{Run: Run, Replay: Replay, Prepare: srcgen.PrepareC02}) }
 
 // exchange is one request/response pair of a connection.
 type exchange struct {
